@@ -234,6 +234,9 @@ def run_impl(case) -> dict:
             )
             gts = [_mk_object(g, True, fr, case["frame"], fr["time"]) for g in fr["gts"]]
             frames.append(FrameGroundTruth(fr["time"], str(len(frames)), gts, transforms=[ego2map]))
+            from harness import builders as _B  # registry with a history (replaced ego pose), see builders.give_history
+
+            _B.maybe_history(frames[-1], ego2map, ("c03", fr["time"], len(gts), e["tx"]))
             by_time[fr["time"]] = frames[-1]
         m.ground_truth_frames = list(by_time.values())
         outs = []
